@@ -1,0 +1,172 @@
+//go:build verif
+
+package pogreb
+
+import (
+	"errors"
+
+	"github.com/akrylysov/pogreb/internal/hash"
+)
+
+// Read-only views of internal state for the verification harness.
+// Nothing in this file is called by the database itself.
+
+// VerifSetThresholds sets the unexported segment size and compaction thresholds.
+func VerifSetThresholds(o *Options, maxSegmentSize, compactionMinSegmentSize uint32, compactionMinFragmentation float32) {
+	o.maxSegmentSize = maxSegmentSize
+	o.compactionMinSegmentSize = compactionMinSegmentSize
+	o.compactionMinFragmentation = compactionMinFragmentation
+}
+
+// VerifHash returns the hash of the key for the given seed.
+func VerifHash(seed uint32, key []byte) uint32 {
+	return hash.Sum32WithSeed(key, seed)
+}
+
+// VerifIsLocked reports whether the error returned by Open means "the database is locked".
+func VerifIsLocked(err error) bool {
+	return errors.Is(err, errLocked)
+}
+
+// VerifIsBusy reports whether the error means "a maintenance task is already running".
+func VerifIsBusy(err error) bool {
+	return errors.Is(err, errBusy)
+}
+
+// VerifHashSeed returns the hash seed of the database.
+func (db *DB) VerifHashSeed() uint32 {
+	db.mu.RLock()
+	defer db.mu.RUnlock()
+	return db.hashSeed
+}
+
+// VerifSegment describes a datalog segment.
+type VerifSegment struct {
+	ID            uint16
+	SequenceID    uint64
+	Name          string
+	Size          int64 // In-memory size.
+	Current       bool
+	Full          bool
+	PutRecords    uint32
+	DeleteRecords uint32
+	DeletedKeys   uint32
+	DeletedBytes  uint32
+}
+
+// VerifSegments lists the datalog segments ordered by sequence ID.
+func (db *DB) VerifSegments() []VerifSegment {
+	db.mu.RLock()
+	defer db.mu.RUnlock()
+	var out []VerifSegment
+	for _, seg := range db.datalog.segmentsBySequenceID() {
+		out = append(out, VerifSegment{
+			ID:            seg.id,
+			SequenceID:    seg.sequenceID,
+			Name:          seg.name,
+			Size:          seg.size,
+			Current:       seg == db.datalog.curSeg,
+			Full:          seg.meta.Full,
+			PutRecords:    seg.meta.PutRecords,
+			DeleteRecords: seg.meta.DeleteRecords,
+			DeletedKeys:   seg.meta.DeletedKeys,
+			DeletedBytes:  seg.meta.DeletedBytes,
+		})
+	}
+	return out
+}
+
+// VerifSlot is an index slot.
+type VerifSlot struct {
+	Hash      uint32
+	SegmentID uint16
+	KeySize   uint16
+	ValueSize uint32
+	Offset    uint32
+}
+
+// VerifBucket is one bucket of a bucket chain.
+type VerifBucket struct {
+	Overflow bool  // Stored in the overflow index file.
+	Offset   int64 // Offset of the bucket in its file.
+	Next     int64 // Offset of the next bucket of the chain in the overflow index file.
+	Slots    []VerifSlot
+	// UsedAfterFree is true if a used slot follows a free slot in the bucket.
+	UsedAfterFree bool
+}
+
+// VerifIndex is a dump of the index.
+type VerifIndex struct {
+	Level          uint8
+	NumKeys        uint32
+	NumBuckets     uint32
+	SplitBucketIdx uint32
+	FreeBuckets    []int64
+	MainSize       int64
+	OverflowSize   int64
+	Chains         [][]VerifBucket // Bucket chain for each bucket index.
+}
+
+// VerifBucketIndex returns the bucket index of the hash for the index geometry of the dump.
+func (vi *VerifIndex) VerifBucketIndex(hash uint32) uint32 {
+	bidx := hash & ((1 << vi.Level) - 1)
+	if bidx < vi.SplitBucketIdx {
+		return hash & ((1 << (vi.Level + 1)) - 1)
+	}
+	return bidx
+}
+
+// VerifIndexDump reads the whole index under the read lock.
+func (db *DB) VerifIndexDump() (*VerifIndex, error) {
+	db.mu.RLock()
+	defer db.mu.RUnlock()
+	idx := db.index
+	vi := &VerifIndex{
+		Level:          idx.level,
+		NumKeys:        idx.numKeys,
+		NumBuckets:     idx.numBuckets,
+		SplitBucketIdx: idx.splitBucketIdx,
+		FreeBuckets:    append([]int64(nil), idx.freeBucketOffs...),
+		MainSize:       idx.main.size,
+		OverflowSize:   idx.overflow.size,
+	}
+	for i := uint32(0); i < idx.numBuckets; i++ {
+		var chain []VerifBucket
+		it := idx.newBucketIterator(i)
+		for {
+			overflow := it.f == idx.overflow
+			b, err := it.next()
+			if err == ErrIterationDone {
+				break
+			}
+			if err != nil {
+				return nil, err
+			}
+			vb := VerifBucket{Overflow: overflow, Offset: b.offset, Next: b.next}
+			free := false
+			for j := 0; j < slotsPerBucket; j++ {
+				sl := b.slots[j]
+				if sl.offset == 0 {
+					free = true
+					continue
+				}
+				if free {
+					vb.UsedAfterFree = true
+				}
+				vb.Slots = append(vb.Slots, VerifSlot{
+					Hash:      sl.hash,
+					SegmentID: sl.segmentID,
+					KeySize:   sl.keySize,
+					ValueSize: sl.valueSize,
+					Offset:    sl.offset,
+				})
+			}
+			chain = append(chain, vb)
+			if len(chain) > 1<<20 {
+				return nil, errors.New("bucket chain does not end")
+			}
+		}
+		vi.Chains = append(vi.Chains, chain)
+	}
+	return vi, nil
+}
